@@ -518,7 +518,8 @@ def run(ctx):
         res = [arm_agreement(T), supported_keys(T), eq_once(T), fallback_rule(T, c), skip_cursor_rule(c), serde_path_panics(c, syn), trailing_comma_rule(T), serde_lists_rule(c), nested_buffer_rule(c)]
         if fs == "default":
             nd = ctx.mir("nodefault") if ctx.tier == "thorough" else None
-            res += [ts_wins(syn, c), feature_gate(syn, nd), value_forms(T, syn)]
+            from rules import templates as TT
+            res += [ts_wins(syn, c), feature_gate(syn, nd), value_forms(T, syn), TT.written_value_rule(syn, "C10")]
         for r in res:
             if fs != "default":
                 r.rule += "@" + fs
